@@ -169,7 +169,8 @@ func.func @f(%s : {ts}, %d : {td}) {{
   func.return
 }}
 """
-    dynamic = any(s is None for s in shape)
+    dynamic = any(s is None for s in shape) or any(
+        dd[0] == "strided" and (any(x is None for x in dd[1]) or dd[2] is None) for dd in (sdesc, ddesc))
 
     def fn():
         E = eng()
@@ -323,6 +324,14 @@ def run(chk):
         cases.append(((None, None), elw, ("id",), ("strided", [None, 1], None)))
         cases.append(((None, None, 1), elw, ("id",), ("strided", [1, None, 1], 0)))
         cases.append(((4, None), elw, ("strided", [None, 1], 7), ("id",)))
+    # dynamic strides against tiled layouts (tile depth 2 in the dimension with the dynamic stride)
+    for elw in (8, 32):
+        for b2 in ([[2, 2], [2, 4]], [[2, 2], [8]], [[4], [2, 4]], [[2, 2, 1], [2, 4]]):
+            flat = [(d, k) for d, bs in enumerate(b2) for k in range(len(bs))]
+            tl = tiled_steps(b2, [(1, len(b2[1]) - 1), (0, len(b2[0]) - 1)] + [p for p in reversed(flat) if p not in ((1, len(b2[1]) - 1), (0, len(b2[0]) - 1))])
+            cases.append(((4, 8), elw, ("strided", [None, 1], None), ("tsl", b2, tl, 0)))
+            cases.append(((4, 8), elw, ("tsl", b2, tl, 0), ("strided", [None, 1], 0)))
+            cases.append(((4, 8), elw, ("strided", [None, 1], 0), ("tsl", b2, row_major(b2), 0)))
     # seeded family: random shapes, random tilings (equal tile bounds on both sides), independent random nesting orders
     # of the tile dimensions on each side, optional gap and offset, strided permutations
     def splits(d):
